@@ -123,9 +123,10 @@ Theorem C07_code_tie :
      gen_choose cne pc sne lc bs nb r = choose (total_n cne pc sne lc) bs nb r)
   /\ (forall cnt bc s r, gen_sower_call cnt bc s r = (cnt + 1, true, cut s r (cnt + 1) bc))
   /\ (forall bc cnt, gen_save_batch bc cnt = (bc + 1, bc + 1, 0, true))
-  /\ (forall b, gen_sower_exit b = b).
+  /\ (forall b, gen_sower_exit b = b)
+  /\ gen_reload_overrides_request = true.
 Proof.
-  exact (conj bridge_choose (conj bridge_sower_call (conj bridge_save_batch bridge_sower_exit))).
+  exact (conj bridge_choose (conj bridge_sower_call (conj bridge_save_batch (conj bridge_sower_exit bridge_reload_overrides)))).
 Qed.
 
 (* non-vacuity: concrete crops meeting the hypotheses *)
